@@ -173,14 +173,14 @@ def run(r) -> None:
                         ncell = [shape[1], shape[0]]
                         for cx in [ncell[0] // 2, 2, 3, ncell[0] - 3]:
                             cases.append(dict(dim=dim, kernel=kernel, dtype=dt, dx=dx, base_cells=[[cx], [ncell[1] // 2, 2, 3, ncell[1] - 3]]))
-    # marker-count alphabet: the closures are specialised on the number of markers (1 marker; 512 markers:
+    # marker-count alphabet: the closures are specialised on the number of markers (1 marker; 1500 markers: beyond 1024 and not a multiple of any power-of-two block size; 512 markers:
     # above any "large marker count" threshold a maintainer might introduce), one base cell per axis
     for dim in (2, 3):
         shape = lagcomm.SHAPES[dim]
         mid = [[shape[dim - 1 - k] // 2] for k in range(dim)]
         for kernel in ("cosine", "peskin"):
             for dt in ("float64", "float32"):
-                for nm in (1, 512):
+                for nm in ((1, 512, 1500) if dt == "float64" else (1, 512)):
                     cases.append(dict(dim=dim, kernel=kernel, dtype=dt, dx=lagcomm.DXS[0], base_cells=mid, n_markers=nm))
     # grids whose first cell centre is not at dx / 2 (node-centred grid, far-offset origin)
     for dim in (2, 3):
@@ -211,6 +211,6 @@ def run(r) -> None:
     r.extra["positions_where_floor_index_slipped"] = slips
     r.bounds = {"offsets_per_axis": [f"{o[0]}:{o[1]}{o[2]:+d}ulp" for o in offsets_alphabet(np.float64)], "crossed_over_all_axes": True,
                 "base_cells": "{n/2, 2, 3, n-3} per axis" + (" (3-D: at most one axis away from n/2)" if quick else " (full cross)"),
-                "dx": lagcomm.DXS + lagcomm.LARGE_DXS, "grid_origins": lagcomm.SHIFTS, "shapes": lagcomm.SHAPES, "batch": lagcomm.N_BATCH, "marker_counts": [1, lagcomm.N_BATCH, 512]}
+                "dx": lagcomm.DXS + lagcomm.LARGE_DXS, "grid_origins": lagcomm.SHIFTS, "shapes": lagcomm.SHAPES, "batch": lagcomm.N_BATCH, "marker_counts": [1, lagcomm.N_BATCH, 512, 1500]}
     r.extra["rule"] = "one state per marker position of the offset lattice (all axes crossed); every position goes through the real support/weights/interpolation closures"
     r.assumptions = ["numba closures compiled with fastmath: inputs contain no NaN/inf; tolerances 4 eps (4 + |x|/dx) relative to (1/dx)^d"]
